@@ -129,8 +129,6 @@ Record ginv2 (n : nat) (q : list entry) (o : list obs) (lg lgr : list entry) : P
   (* every id handed to the user names an entry with the time it was posted for *)
   g_posted : forall i tt, In (OPosted i tt) o ->
      exists x, e_id x = i /\ e_time x = tt /\ e_live x = true /\ cons_of x q lg o;
-  (* lazily deleted entries were un-posted by the user *)
-  g_dead : forall x, In x q -> e_live x = false -> In (unposted x) o;
   (* an un-posted id is dead and never fires *)
   g_unposted : forall i r, In (OUnpost i (Some (Some r))) o ->
      (i < n)%nat /\ (forall y, In y q -> e_id y = i -> e_live y = false) /\ ~ In i (map e_id lg);
@@ -144,18 +142,17 @@ Proof. intros ->. reflexivity. Qed.
 
 Lemma ginv_emit n q o lg lgr x : gneutral x = true -> ginv2 n q o lg lgr -> ginv2 n q (x :: o) lg lgr.
 Proof.
-  intros Hx [G1 G2 G3 G4 G5 G6 G7 G8]. split; [exact G1|exact G2|exact G3|..].
+  intros Hx [G1 G2 G3 G4 G5 G7 G8]. split; [exact G1|exact G2|exact G3|..].
   - cbn. replace (is_ph x) with false; [exact G4|]. destruct x as [? ? ? ? [m|]| | | | | | |]; cbn in *; congruence.
   - intros i tt [E|H]; [subst x; discriminate|]. destruct (G5 i tt H) as [y [A [B [C D]]]].
     exists y. auto using cons_emit.
-  - intros y Hy Hl. right. auto.
   - intros i r [E|H]; [subst x; discriminate|]. exact (G7 i r H).
   - intros y ddt Hy Hr Hd. destruct (G8 y ddt Hy Hr Hd) as [z [A B]]. exists z. auto using cons_emit.
 Qed.
 
 Lemma ginv_umove c n q o c' n' q' o' lg lgr : umove (c, n, q, o) (c', n', q', o') -> ginv2 n q o lg lgr -> ginv2 n' q' o' lg lgr.
 Proof.
-  intros H G. pose proof G as [G1 G2 G3 G4 G5 G6 G7 G8].
+  intros H G. pose proof G as [G1 G2 G3 G4 G5 G7 G8].
   assert (Hcons : forall y, e_live y = true -> cons_of y q lg o -> cons_of y q' lg o')
     by (intros y Hl; eapply cons_umove; eassumption).
   inversion H; subst.
@@ -163,7 +160,6 @@ Proof.
   - (* post *) split; auto using wfk_post.
     + intros x Hx. destruct (G2 x Hx) as [A [B C]]. split; [lia|split; [|exact C]]. cbn. intros [E|E]; [lia|auto].
     + intros i tt Hi. destruct (G5 i tt Hi) as [y [A [B [C D]]]]. exists y. auto 6.
-    + intros x [<-|Hx] Hl; [discriminate|auto].
     + intros i r Hi. destruct (G7 i r Hi) as [A [B C]]. split; [lia|split; [|exact C]].
       intros y [<-|Hy] E; [cbn in E; lia|auto].
     + intros x ddt Hx Hr Hd. destruct (G8 x ddt Hx Hr Hd) as [y [A B]]. exists y.
@@ -172,7 +168,6 @@ Proof.
     + intros i tt [E|Hi].
       * injection E as <- <-. exists x. split; [reflexivity|split; [reflexivity|split; [assumption|]]]. left. assumption.
       * destruct (G5 i tt Hi) as [y [A [B [C D]]]]. exists y. auto 6 using cons_emit.
-    + intros y Hy Hl. right. auto.
     + intros i r [E|Hi]; [discriminate|exact (G7 i r Hi)].
     + intros y ddt Hy Hr Hd. destruct (G8 y ddt Hy Hr Hd) as [z [A B]]. exists z. auto using cons_emit.
   - (* kill *)
@@ -180,12 +175,6 @@ Proof.
     split; auto using wfk_kill.
     + intros y Hy. rewrite kill_ids. exact (G2 y Hy).
     + intros j tt [E|Hj]; [discriminate|]. destruct (G5 j tt Hj) as [y [A [B [C D]]]]. exists y. auto 6.
-    + intros y Hy Hl. apply kill_in in Hy. destruct Hy as [[Hy _]|[z [Hz [Hzi ->]]]].
-      * right. auto.
-      * destruct (e_live z) eqn:Ez.
-        -- assert (z = x) by (eapply NoDup_id_inj; [apply G1|assumption|assumption|congruence]). subst z. left.
-           unfold unposted. cbn. rewrite Hi. reflexivity.
-        -- right. rewrite (dead_of_dead z Ez). auto.
     + intros j r [E|Hj].
       * injection E as <- <-. split; [|split].
         -- destruct G1 as [_ Hlt]. rewrite Forall_forall in Hlt. rewrite <- Hi. apply Hlt, Hx.
@@ -207,13 +196,12 @@ Qed.
 
 Lemma ginv_discard n q o lg lgr f : ginv2 n q o lg lgr -> ginv2 n (discard_dead f q) o lg lgr.
 Proof.
-  intros [G1 G2 G3 G4 G5 G6 G7 G8]. split; auto using wfk_discard.
+  intros [G1 G2 G3 G4 G5 G7 G8]. split; auto using wfk_discard.
   - intros x Hx. destruct (G2 x Hx) as [A [B C]]. split; [exact A|split; [|exact C]].
     intros Hin. apply B. apply in_map_iff in Hin. destruct Hin as [z [Hz Hin]].
     apply in_map_iff. exists z. split; [exact Hz|]. eapply discard_dead_incl; eassumption.
   - intros i tt Hi. destruct (G5 i tt Hi) as [y [A [B [C D]]]]. exists y.
     split; [exact A|split; [exact B|split; [exact C|]]]. eapply cons_discard; eassumption.
-  - intros x Hx. apply G6. eapply discard_dead_incl; eassumption.
   - intros i r Hi. destruct (G7 i r Hi) as [A [B C]]. split; [exact A|split; [|exact C]].
     intros y Hy. apply B. eapply discard_dead_incl; eassumption.
   - intros x ddt Hx Hr Hd. destruct (G8 x ddt Hx Hr Hd) as [y [A B]]. exists y. split; [exact A|].
@@ -225,7 +213,7 @@ Qed.
 Lemma ginv_pop n q o lg h : head q = Some h -> e_live h = true -> ginv n q o lg ->
   ginv2 n (remove_id (e_id h) q) (hrec h :: o) (lg ++ [h]) lg.
 Proof.
-  intros Hh Hl [G1 G2 G3 G4 G5 G6 G7 G8]. pose proof (head_in _ _ Hh) as Hin.
+  intros Hh Hl [G1 G2 G3 G4 G5 G7 G8]. pose proof (head_in _ _ Hh) as Hin.
   split; auto using wfk_remove.
   - intros x Hx. apply in_app_or in Hx. destruct Hx as [Hx|[<-|[]]].
     + destruct (G2 x Hx) as [A [B C]]. split; [exact A|split; [|exact C]].
@@ -240,7 +228,6 @@ Proof.
   - cbn. rewrite G4, rev_app_distr. reflexivity.
   - intros i tt [E|Hi]; [discriminate|]. destruct (G5 i tt Hi) as [y [A [B [C D]]]]. exists y.
     split; [exact A|split; [exact B|split; [exact C|]]]. eapply cons_pop; eassumption.
-  - intros x Hx Hd. right. apply G6; [eapply remove_id_incl; eassumption|exact Hd].
   - intros i r [E|Hi]; [discriminate|]. destruct (G7 i r Hi) as [A [B C]]. split; [exact A|split].
     + intros y Hy. apply B. eapply remove_id_incl; eassumption.
     + rewrite map_app. cbn. intros Hx. apply in_app_or in Hx. destruct Hx as [Hx|[Hx|[]]]; [auto|].
@@ -254,7 +241,7 @@ Lemma ginv_close n q o lg h : ginv2 n q o (lg ++ [h]) lg ->
   (forall ddt, e_rep h = Some ddt -> 0 <= ddt -> exists y, succ_of h ddt y /\ In y q) ->
   ginv n q o (lg ++ [h]).
 Proof.
-  intros [G1 G2 G3 G4 G5 G6 G7 G8] Hs. split; auto.
+  intros [G1 G2 G3 G4 G5 G7 G8] Hs. split; auto.
   intros x ddt Hx Hr Hd. apply in_app_or in Hx. destruct Hx as [Hx|[<-|[]]]; [eauto|].
   destruct (Hs ddt Hr Hd) as [y [A B]]. exists y. split; [exact A|left; exact B].
 Qed.
